@@ -96,7 +96,14 @@ def run(chk, repo):
                        key=f"{q}::cursor-alias::{nm}", fn=h.qual)
 
     # ------------------------------------------------------------------ d
-    chk.rule('C03.d', 'Sec-truncated label keeps variants ending at or before the Sec codon', 1)
+    sec_variant_filter(chk, repo, 'C03.d')
+    leading_node_sibling(chk, repo, 'C03.e')
+
+
+def sec_variant_filter(chk, repo, rid):
+    """Sec-truncated peptides keep every variant ending at or before the Sec codon start (shared with C01.e)."""
+    from sa.cfg import literal
+    chk.rule(rid, 'Sec-truncated label keeps variants ending at or before the Sec codon', 1)
     tm = repo.func('svgraph.VariantPeptideDict:MiscleavedNodes.translational_modification')
     chk.uses(tm)
     cv = [n for n in walk_no_nested(tm.node) if isinstance(n, ast.Assign) and unparse(n.targets[0]) == 'cur_variants' and isinstance(n.value, ast.ListComp)]
@@ -104,10 +111,23 @@ def run(chk, repo):
     detail = ''
     if len(cv) == 1:
         conds = cv[0].value.generators[0].ifs
-        from sa.cfg import literal
         lits = {literal(c) for c in conds}
         ok = lits == {('v.location.end <= sec.variant.location.start', True)}
         detail = f"filter {sorted(lits)}"
-    chk.ob('C03.d', 'cur_variants = variants with end <= sec start (half-open: a variant ending at the Sec start is upstream)', repo.loc(tm, cv[0]) if cv else tm.where, ok,
-           f"{detail}: a variant ending exactly at the Sec codon start lies inside the truncated peptide but is dropped from its header",
-           key=tm.qual + '::sec-variant-filter', fn=tm.qual)
+    chk.ob(rid, 'cur_variants = variants with end <= sec start (half-open: a variant ending at the Sec start is upstream)', repo.loc(tm, cv[0]) if cv else tm.where, ok,
+           f"{detail}: a variant ending exactly at the Sec codon start lies inside the truncated peptide but is dropped from its header "
+           "(and the peptide itself is dropped when it was the only variant)", key=tm.qual + '::sec-variant-filter', fn=tm.qual)
+
+
+def leading_node_sibling(chk, repo, rid):
+    """R-SIBLING: every traversal passes the in-graph node as leading_node (upstream-indel lookup is keyed by node identity)."""
+    chk.rule(rid, 'R-SIBLING: add_miscleaved_sequences always receives leading_node=target_node', 3)
+    n = 0
+    for f in repo.funcs_in('svgraph.PeptideVariantGraph'):
+        for c in G.find_calls(f.node, 'add_miscleaved_sequences', nested=False):
+            n += 1
+            a = kwarg(c, 'leading_node')
+            chk.ob(rid, f"{f.name}: add_miscleaved_sequences(leading_node=target_node)", repo.loc(f, c), a is not None and unparse(a) == 'target_node',
+                   f"{f.name} calls add_miscleaved_sequences with leading_node={unparse(a) if a is not None else 'missing (defaults to the truncated copy)'}: "
+                   "its sibling traversals pass the in-graph node; the upstream-indel map is keyed by that node, so indels on the outgoing edge vanish from the header",
+                   key=f"{f.qual}::leading_node", fn=f.qual)
